@@ -469,6 +469,19 @@ def _sc_bulk_witness(rng, quick):
     s = bringup() + enumerate_device(5, short=True) + [("mark_served",), ("tp", dict(sub="ack", ep=EP_IN, seq=0, nump=1)), ("wait", 30),
                                                        ("feed", data, True), ("serve_in", EP_IN, 0, 1), ("quiet",)]
     out.append(("data-after-nrdy", s))
+    # a transfer that ends on a packet boundary: the zero-length packet follows with the next sequence number (requested
+    # together with the acknowledgement, or by a separate IN request); its retry repeats it
+    for variant in ("combined", "separate", "retried"):
+        data = [rng.getrandbits(8) for _ in range(MAX_PKT)]
+        poll = lambda seq, nump=1, rty=0: ("tp", dict(sub="ack", ep=EP_IN, seq=seq, nump=nump, rty=rty))       # noqa: E731
+        s = bringup() + [("feed", data, True), ("wait_feed",), ("wait", 6), poll(0), ("wait_dev", 1)]
+        if variant == "separate":
+            s += [poll(1, 0), ("wait", 12), poll(1), ("wait_dev", 1)]
+        else:
+            s += [poll(1), ("wait_dev", 1)]
+        if variant == "retried":
+            s += [poll(1, 1, 1), ("wait_dev", 1)]
+        out.append(("boundary-transfer-zlp-%s" % variant, s + [poll(2, 0), ("wait", 20), ("quiet",)]))
     for n in ((6, 8, 3) if quick else (1, 2, 3, 4, 5, 6, 7, 8)):
         data = [rng.getrandbits(8) for _ in range(n)]
         s = bringup() + [("feed", data, True), ("wait_feed",), ("wait", 6), ("mark_served",),
@@ -504,8 +517,14 @@ def prepare(items):
     hdrs, hidx, pays, pidx, out = [], {}, [], {}, []
     for trace, meta in items:
         t2 = []
+        polls = set()          # cycles in which an IN request for the IN endpoint was reported
         for r in trace:
             e = r["e"]
+            if e == "tp" and r["ep"] == EP_IN and r["sub"] == 1 and r["nump"] > 0:
+                polls.add(r["t"])
+            elif e == "w":
+                # same-cycle tolerance of the specification: the word was accepted in the very cycle of such a report
+                r = dict(r, same=r["t"] in polls)
             if e in ("dhp", "dhp_down", "dhp_seq"):
                 key = tuple(r["w"])
                 if key not in hidx:
@@ -572,13 +591,14 @@ C46_CLAUSE = {"packet_completed_while_nrdy_was_being_sent": "erdy_missing",
               "poll_while_erdy_is_being_sent_dropped": "request_unanswered",
               "last_word_accepted_in_cycle_of_acknowledging_ack": "packet_stuck",
               "last_beat_withdrawn_while_tx_not_ready": "dp_truncated",
-              "single_beat_packet_parameters_not_driven": "dp_parameters"}
+              "single_beat_packet_parameters_not_driven": "dp_parameters",
+              "zero_length_packet_sequencing": "dp"}
 
 
 def _c46_cause(pre, status):
     """Normalised causes of the open C46 findings, from the recorded events (with their cycles) before the failing one."""
     if status not in ("response_missing", "tp_requested_not_sent", "dp_payload_missing", "tp_subtype", "tp_not_owed",
-                      "dp_not_owed", "dp_payload", "dp_length", "dp_sequence", "dp_header_without_payload"):
+                      "dp_not_owed", "dp_payload", "dp_length", "dp_sequence", "dp_header_without_payload", "dp_address"):
         return None
     held = closed = 0
     inflight = False
@@ -591,7 +611,9 @@ def _c46_cause(pre, status):
         if e == "w":
             held += len(r["b"])
             closes = r["last"] or held % MAX_PKT == 0
-            if r["last"] and 4 < held <= 8:
+            if r["last"] and held % MAX_PKT == 0:
+                hits.append("zero_length_packet_sequencing")
+            elif r["last"] and 4 < held <= 8:
                 hits.append("last_beat_withdrawn_while_tx_not_ready")
             elif r["last"] and held <= 4:
                 hits.append("single_beat_packet_parameters_not_driven")
